@@ -748,12 +748,12 @@ theorem enableDeferred_valence (b : Bool) (hv : ValenceShape k) (hm : k.fast = t
 theorem enableFast_valence (b : Bool) (hv : ValenceShape k) : ValenceShape (k.enableFast b) := valenceShape_of_eq rfl rfl hv
 
 theorem enableVBU_valence (b : Bool) (hv : ValenceShape k) : ValenceShape (k.enableVBU b) := by
-  unfold enableVBU; simp only; refine valenceShape_of_eq ?_ ?_ hv <;> (split <;> split <;> rfl)
+  unfold enableVBU; refine valenceShape_of_eq ?_ ?_ hv <;> (repeat' split) <;> rfl
 theorem enableEBU_valence (b : Bool) (hv : ValenceShape k) : ValenceShape (k.enableEBU b) := by
   unfold enableEBU reorderAll; simp only
   refine valenceShape_of_eq ?_ ?_ hv <;> (repeat' split) <;> simp
 theorem enableFBU_valence (b : Bool) (hv : ValenceShape k) : ValenceShape (k.enableFBU b) := by
-  unfold enableFBU reorderAll; simp only
+  unfold enableFBU reorderAll
   refine valenceShape_of_eq ?_ ?_ hv <;> (repeat' split) <;> simp
 
 theorem addVertex_keeps : Keeps k k.addVertex.1 := Keeps.of_eq rfl rfl rfl rfl
